@@ -620,6 +620,7 @@ func (c *Cluster) runStoreEngine(ops []*storeOp) {
 			}
 		}
 	}
+	c.trace.add(fmt.Sprintf("store:%d:%d:%d:%d", s.cache, s.applied, s.reopens, s.points))
 	c.stats.Probes["c16-ops-applied"] += s.applied
 	c.stats.Probes["c16-reopens"] += s.reopens
 }
